@@ -984,6 +984,10 @@ func hasKind(vs []Viol, k string) (Viol, bool) {
 	return Viol{}, false
 }
 
+// lim: at most 2 shrunk reports per kind and 12 per kind-prefix class (c11- / c08- / c09- /
+// correspondence): failures of one class never use up the room, or the time, of another.
+var lim = vlib.NewClassLimiter(2, 12)
+
 func record(t *testing.T, scn Scn, m *vlib.Model, repeats int, res *vlib.Result) {
 	o := checkScn(t, scn, m, repeats)
 	if o.modelError != nil && res.ModelMissing == "" {
@@ -1001,6 +1005,9 @@ func record(t *testing.T, scn Scn, m *vlib.Model, repeats int, res *vlib.Result)
 	res.CountN("actions", len(scn.Script))
 	res.Case(strings.Join(scn.Lines(), ";"), nontrivial, scn.Lines())
 	for _, v := range o.viols {
+		if !lim.Admit("monitor", v.Kind) {
+			continue
+		}
 		small := scn
 		small.Script = vlib.Shrink(scn.Script, func(c []Act) bool {
 			s2 := scn
@@ -1017,7 +1024,7 @@ func record(t *testing.T, scn Scn, m *vlib.Model, repeats int, res *vlib.Result)
 		res.Fail(vlib.Failure{Source: "monitor", Kind: v.Kind, Params: map[string]interface{}{"mode": scn.Mode},
 			What: what, Case: small.Lines()})
 	}
-	if o.corr != "" {
+	if o.corr != "" && lim.Admit("correspondence", "batch-model-differs") {
 		small := scn
 		small.Script = vlib.Shrink(scn.Script, func(c []Act) bool {
 			s2 := scn
@@ -1109,9 +1116,6 @@ func TestVerif(t *testing.T) {
 	for i := 0; i < max && time.Now().Before(deadline); i++ {
 		scn := genScn(r.Fork(), res)
 		record(t, scn, m, repeats, res)
-		if len(res.Failures) >= 12 {
-			break
-		}
 	}
 	if env.Thorough() && !raceEnabled {
 		res.Exhaustive = exhaustive(t, m, res, time.Now().Add(time.Duration(env.BudgetMs)*time.Millisecond))
